@@ -857,7 +857,11 @@ def generate(rng: random.Random, profile: Optional[Dict[str, Any]] = None) -> Di
     if profile.get("generated"):
         # focus on generated modules (incl. the special blocks: equal-count over-used constants,
         # process-dependent constant expressions, several spellings of one string)
-        focus_e = [(gen.gen_module(rng, process_dependent=rng.random() < 0.4, special=True), None) for _ in range(n_focus)]
+        focus_e = []
+        theme = rng.choice(gen.SPECIAL_BLOCKS + (None, None, None))  # half of the runs stay on one family of inputs
+        for _ in range(n_focus + (3 if theme else 0)):
+            kind = theme if (theme and rng.random() < 0.8) else None
+            focus_e.append((gen.gen_module(rng, process_dependent=rng.random() < 0.4, special=True, force=kind), None))
     else:
         focus_e = [gen.pick_entry(rng, corpus, names_only) for _ in range(n_focus)]
     focus = [t for t, _ in focus_e]
